@@ -415,7 +415,9 @@ class Inliner:
                 for n in ast.walk(f.node):
                     if isinstance(n, ast.Call):
                         last = n.func.attr if isinstance(n.func, ast.Attribute) else (n.func.id if isinstance(n.func, ast.Name) else "")
-                        if (last in names and last not in BUILTIN_SCOPE_SENSITIVE) or (isinstance(n.func, ast.Name) and n.func.id in BUILTIN_SCOPE_SENSITIVE):
+                        # (eval / exec / locals / globals / vars look at the frame they are written in: a function using them is
+                        # not inlined itself - see _eligible - but its callers see nothing of it)
+                        if last in names and last not in BUILTIN_SCOPE_SENSITIVE:
                             names.add(f.name)
                             changed = True
                             break
@@ -1353,6 +1355,46 @@ def normalise_expressions(prog):
     inv_ = load_inventory() or {"functions": []}
     ref_known = set(inv_["functions"])
 
+    def split_chains_and_merge_tails(fnode):
+        """(1) a = X.attr = CALL  ->  X.attr = CALL ; a = X.attr   (plain attributes: the local reads what was just stored)
+        (2) if c: ...; T  else: ...; T   with the same simple assignment T last in both arms  ->  if c: ... else: ... ; T"""
+        props = getattr(fnode, "_props", set())
+
+        def walk(stmts):
+            out = []
+            for st in stmts:
+                for fld in ("body", "orelse", "finalbody"):
+                    sub = getattr(st, fld, None)
+                    if isinstance(sub, list) and sub and isinstance(sub[0], ast.stmt) and not isinstance(st, (ast.FunctionDef, ast.ClassDef)):
+                        setattr(st, fld, walk(sub))
+                if isinstance(st, ast.Assign) and len(st.targets) == 2 and isinstance(st.targets[0], ast.Name) and isinstance(st.targets[1], ast.Attribute) \
+                        and isinstance(st.targets[1].value, ast.Name) and isinstance(st.value, ast.Call) and st.targets[1].attr not in props \
+                        and not st.targets[1].attr.startswith("__"):
+                    a1 = ast.Assign(targets=[st.targets[1]], value=st.value)
+                    load = copy.deepcopy(st.targets[1])
+                    load.ctx = ast.Load()
+                    a2 = ast.Assign(targets=[st.targets[0]], value=load)
+                    for x_ in (a1, a2):
+                        ast.copy_location(x_, st)
+                        ast.fix_missing_locations(x_)
+                    out.extend([a1, a2])
+                    continue
+                if isinstance(st, ast.If) and st.body and st.orelse and isinstance(st.body[-1], ast.Assign) and isinstance(st.orelse[-1], ast.Assign) \
+                        and unparse(st.body[-1]) == unparse(st.orelse[-1]) and len(st.body[-1].targets) == 1 and isinstance(st.body[-1].targets[0], ast.Name) \
+                        and isinstance(st.body[-1].value, (ast.Attribute, ast.Name)):
+                    tail = st.body[-1]
+                    st.body = st.body[:-1] or [ast.Pass()]
+                    st.orelse = st.orelse[:-1]
+                    if st.body == [] or all(isinstance(b_, ast.Pass) for b_ in st.body) and st.orelse:
+                        st.test = ast.UnaryOp(op=ast.Not(), operand=st.test)
+                        st.body, st.orelse = st.orelse, []
+                    out.extend([st, tail])
+                    continue
+                out.append(st)
+            return out
+
+        fnode.body = walk(fnode.body)
+
     def attribute_aliases(f, keep):
         """`slices = self.slices` / `terms = self.terms` / `name = term.name`: a local bound ONCE to a plain attribute chain of a
         parameter or loop variable, in a function that stores no attribute of that name (and calls no method of its own class
@@ -1422,9 +1464,12 @@ def normalise_expressions(prog):
                         continue
                     if "*" in attr_stores and len(attrs) >= 1 and base == (f.params[0] if f.params else None) and False:
                         continue
-                    if any(a in attr_stores for a in attrs):
-                        continue
                     rest = blk[i + 1:]
+                    # stores of that attribute only matter while the alias is live (in what follows the definition)
+                    later_stores = {n.attr for r_ in rest for n in ast.walk(r_) if isinstance(n, ast.Attribute) and isinstance(n.ctx, (ast.Store, ast.Del))}
+                    called_stores = attr_stores - {n.attr for n in ast.walk(fnode) if isinstance(n, ast.Attribute) and isinstance(n.ctx, (ast.Store, ast.Del))}
+                    if any(a in later_stores or a in called_stores for a in attrs):
+                        continue
                     # the base must keep its value while the alias is live
                     if any(isinstance(n, ast.Name) and n.id == base and isinstance(n.ctx, (ast.Store, ast.Del)) for r_ in rest for n in ast.walk(r_)):
                         continue
@@ -1465,6 +1510,7 @@ def normalise_expressions(prog):
                 forward_markers(f.node)
             # only in functions that differ from the reference (or are new), and never an alias the reference itself has
             if f.qual in getattr(prog, "differing", []) or f.qual not in ref_known:
+                split_chains_and_merge_tails(f.node)
                 attribute_aliases(f, getattr(prog, "ref_aliases", {}).get(f.qual, set()))
             ast.fix_missing_locations(f.node)
         except Exception:  # noqa: BLE001
